@@ -177,6 +177,15 @@ func (vc *VC) declMem(name, key string, leaf Sort, twoLevel bool) string {
 	if leaf != SInt {
 		return name
 	}
+	if key == "buffer.obj" && twoLevel {
+		// a buffer's backing object exists; at function entry it predates this function's allocations
+		hi := ""
+		if strings.HasPrefix(name, "$M0_") {
+			hi = fmt.Sprintf(" (< (select (select %s o) i) $A0)", name)
+		}
+		vc.emit(fmt.Sprintf("(assert (forall ((o Int) (i Int)) (! (and (< 0 (select (select %s o) i))%s) :pattern ((select (select %s o) i)))))", name, hi, name))
+		return name
+	}
 	T := vc.keyType[key]
 	if key == "uint8" {
 		T = types.Typ[types.Uint8]
